@@ -30,7 +30,7 @@ def main():
             return mod.replay(data)
         print(json.dumps(data, indent=1))
         return 0
-    common.ensure_driver()
+    common.ensure_driver(pid)
     ctx = common.Ctx(pid, a.tier, seed, getattr(mod, "FILES", []))
     try:
         mod.run(ctx)
